@@ -97,6 +97,12 @@ def run(ctx):
                                      sample=(random.Random(17), 1400), kinds=["select", "derive", "filter", "sort", "take", "aggregate", "group_take", "join", "append"])
     shaped += relgen.systematic_cases(2 if quick else 3, dict(SAFE, force_shape=["join_all"]), seed=18, sample=(random.Random(18), 400),
                                       kinds=["select", "filter", "take", "join", "aggregate", "sort"])
+    # duplicate column names across joined relations (profile FULL: shared column k, same-named columns allowed), every sequence of the
+    # kinds that keep / drop / regroup such columns
+    dupnames = relgen.systematic_cases(3, FULL, seed=19, kinds=["select", "join", "group_take", "exclude", "group_agg", "derive", "filter"],
+                                       variants=1 if quick else 3)
+    ctx.coverage_extra["duplicate_name_sequences"] = len(dupnames)
+    nbad += explore(ctx, "duplicate-names", None, 0, FULL, "sql.sqlite", cases=dupnames)
     ctx.coverage_extra["diamond_cases"] = len(dia)
     ctx.coverage_extra["forced_shape_cases"] = len(shaped)
     nbad += explore(ctx, "diamond", None, 0, SAFE, "sql.sqlite", cases=dia)
